@@ -18,6 +18,7 @@ import (
 	"reflect"
 	"sort"
 	"strings"
+	"time"
 
 	"github.com/mattn/anko/ast"
 	"github.com/mattn/anko/env"
@@ -98,9 +99,11 @@ func corpus(c *common.Ctx) []prog {
 	if c.Thorough() {
 		d8 = 3
 	}
+	shallow := map[string]bool{}
+	c08.Corpus(c, 2, func(src string) { shallow[src] = true })
 	n := 0
 	c08.Corpus(c, d8, func(src string) {
-		ps = append(ps, prog{Name: fmt.Sprintf("c08/%d", n), Src: src, Deep: strings.Count(src, "{") > 6})
+		ps = append(ps, prog{Name: fmt.Sprintf("c08/%d", n), Src: src, Deep: !shallow[src]})
 		n++
 	})
 	n = 0
@@ -322,7 +325,9 @@ func run(c *common.Ctx) *common.Result {
 			continue
 		}
 		res.Add("programs", 1)
+		t0 := time.Now()
 		solo, usable := sequential(p, stmt, res)
+		res.Add("ms_sequential", time.Since(t0).Milliseconds())
 		if canary() != canaryWant {
 			poisoned = true
 		}
@@ -340,15 +345,16 @@ func run(c *common.Ctx) *common.Result {
 			interleaveBudget++
 			every := 60
 			if c.Thorough() {
-				every = 12
+				every = 20
 			}
 			if interleaveBudget%every != 0 {
 				continue
 			}
 		}
+		t1 := time.Now()
 		for _, n := range []int{2, 3} {
-			if n == 3 && !p.Hand && !c.Thorough() {
-				continue
+			if n == 3 && !p.Hand {
+				continue // three concurrent runs: handcrafted programs only
 			}
 			b := bound
 			if (n == 3 || !p.Hand) && b > 2 {
@@ -356,7 +362,7 @@ func run(c *common.Ctx) *common.Result {
 			}
 			reported := false
 			d0 := astdump.Dump(stmt)
-			st := explore.DFS(explore.Options{Bound: b, MaxExecs: 60000, Deadline: c.Deadline}, func(r *explore.Run) bool {
+			st := explore.DFS(explore.Options{Bound: b, MaxExecs: 40000, Deadline: c.Deadline}, func(r *explore.Run) bool {
 				outs, verdict, s := interleaved(p, stmt, n, r, false)
 				res.Add("transitions", int64(s.Steps))
 				if r.Err != nil {
@@ -408,6 +414,10 @@ func run(c *common.Ctx) *common.Result {
 			if st.Capped {
 				res.Cap("execution cap/deadline hit while interleaving " + p.Name)
 			}
+		}
+		res.Add("ms_interleaved", time.Since(t1).Milliseconds())
+		if p.Hand {
+			res.Add("ms_interleaved_hand", time.Since(t1).Milliseconds())
 		}
 		if got := canary(); got != canaryWant {
 			res.Violate(common.Violation{Class: "process-state-changed", Case: p.Src, Detail: "after interleaved runs: " + got, Replay: replayData{Prog: p, Mode: "sequential"}})
